@@ -1664,14 +1664,31 @@ Definition p_fail (c : nat) (e : tev) : bool :=
   match e with
   | TExit j PreStart _ => false
   | TExit j _ (RErr _) | TExit j _ (RPanic _) => Nat.eqb j c
+  | TCancel j PreStart => false
+  | TCancel j _ => Nat.eqb j c
   | _ => false end.
 
-Lemma failed_app c t1 t2 : failed_cb c (t1 ++ t2) = failed_cb c t1 || failed_cb c t2.
-Proof. unfold failed_cb, has_ev. apply existsb_app. Qed.
+Lemma has_ev_imp (p q : tev -> bool) t :
+  (forall e, p e = true -> q e = true) -> has_ev p t = true -> has_ev q t = true.
+Proof.
+  intros H. unfold has_ev. rewrite !existsb_exists. intros (e & He & Pe). exists e. auto.
+Qed.
+Lemma failed_pf c t : failed_cb c t = true -> has_ev (p_fail c) t = true.
+Proof.
+  unfold failed_cb. apply has_ev_imp. intros e0. destruct e0; simpl; auto; intros; discriminate.
+Qed.
+Lemma cancelled_pf c t : cancelled_cb c t = true -> has_ev (p_fail c) t = true.
+Proof.
+  unfold cancelled_cb. apply has_ev_imp. intros e0. destruct e0; simpl; auto; intros; discriminate.
+Qed.
+Lemma pf_app c t1 t2 : has_ev (p_fail c) (t1 ++ t2) = has_ev (p_fail c) t1 || has_ev (p_fail c) t2.
+Proof. unfold has_ev. apply existsb_app. Qed.
 Lemma ended_app2 c t1 t2 : ended c (t1 ++ t2) = ended c t1 || ended c t2.
 Proof. unfold ended, has_ev. apply existsb_app. Qed.
 
-Definition jgood (d : list tev) : Prop := forall c, failed_cb c d = true -> ended c d = true.
+(* in the segment, every failed or cancelled callback (after pre_start) of an actor comes with
+   the end of that actor's task *)
+Definition jgood (d : list tev) : Prop := forall c, has_ev (p_fail c) d = true -> ended c d = true.
 Definition ext (w w' : world) : Prop := exists d, trace_of w' = trace_of w ++ d /\ jgood d.
 
 Lemma ext_refl w : ext w w.
@@ -1679,15 +1696,15 @@ Proof. exists []. split; [symmetry; apply app_nil_r|intros c; discriminate]. Qed
 Lemma ext_trans w1 w2 w3 : ext w1 w2 -> ext w2 w3 -> ext w1 w3.
 Proof.
   intros (d1 & E1 & G1) (d2 & E2 & G2). exists (d1 ++ d2). split; [rewrite E2, E1, app_assoc; reflexivity|].
-  intros c. rewrite failed_app, ended_app2. intros A. apply orb_true_iff in A as [A|A];
+  intros c. rewrite pf_app, ended_app2. intros A. apply orb_true_iff in A as [A|A];
     [rewrite (G1 c A)|rewrite (G2 c A), orb_true_r]; reflexivity.
 Qed.
 Lemma ext_same w w' : w_trace w' = w_trace w -> ext w w'.
 Proof. intros E. exists []. unfold trace_of. rewrite E, app_nil_r. split; [reflexivity|intros c; discriminate]. Qed.
 Lemma ext_emit w e : (forall c, p_fail c e = false) -> ext w (emit w e).
 Proof.
-  intros H. exists [e]. split; [reflexivity|]. intros c A. unfold failed_cb, has_ev in A. simpl in A.
-  rewrite orb_false_r in A. change (p_fail c e = true) in A. rewrite H in A. discriminate.
+  intros H. exists [e]. split; [reflexivity|]. intros c A. unfold has_ev in A. simpl in A.
+  rewrite orb_false_r, H in A. discriminate.
 Qed.
 Lemma ext_upd w i f : ext w (upd w i f).
 Proof. apply ext_same. reflexivity. Qed.
@@ -1746,7 +1763,7 @@ Proof.
   assert (Hfail : forall w' e, w_trace w' = w_trace wx -> ext w (finish w' i e)).
   { intros w' e Et. exists [TExit i c f; TJoin i]. split.
     - unfold finish, trace_of. simpl. rewrite trace_cleanup, Et. simpl. rewrite <- app_assoc. reflexivity.
-    - intros c0 A. unfold ended, has_ev. simpl. unfold failed_cb, has_ev in A. simpl in A.
+    - intros c0 A. unfold ended, has_ev. simpl. unfold has_ev in A. simpl in A.
       rewrite orb_false_r in A. assert (Nat.eqb i c0 = true).
       { destruct c; try discriminate; destruct f; try discriminate; exact A. }
       rewrite H. reflexivity. }
@@ -1764,6 +1781,15 @@ Proof.
   - eapply ext_trans; [apply ext_upd|]. apply ext_same, trace_notify.
   - apply ext_upd.
   - apply ext_upd.
+Qed.
+
+Lemma killed_exit_trace w i c :
+  w_trace (killed_exit w i c) =
+  (match c with Some PreStart => TSpawnRet i false | _ => TJoin i end) :: w_trace w.
+Proof.
+  unfold killed_exit, finish, start_failed.
+  destruct c as [[| | | |]|]; simpl; rewrite trace_cleanup, ?trace_upd; unfold terminate;
+    rewrite trace_terminate_fuel; reflexivity.
 Qed.
 
 Lemma ext_seg w i : ext w (fst (seg w i)).
@@ -1813,8 +1839,13 @@ Proof.
   unfold poll. assert (E : ext w (fst (resume w i))).
   { unfold resume. destruct (get w i) as [a|]; [|apply ext_refl].
     destruct (a_pc a); cbn [fst]; try apply ext_refl. destruct (a_sig a); cbn [fst]; [|apply ext_refl].
-    eapply ext_trans; [|apply ext_killed_exit].
-    apply ext_trans with (consume_sig w i); [apply ext_upd|]. apply ext_emit. intros c0. destruct c; reflexivity. }
+    set (fe := match c with PreStart => TSpawnRet i false | _ => TJoin i end).
+    exists [TCancel i c; fe]. split.
+    - unfold trace_of. rewrite (killed_exit_trace _ i (Some c)). simpl. rewrite <- app_assoc. reflexivity.
+    - intros c0 A. unfold has_ev in A. simpl in A. unfold ended, has_ev. simpl.
+      assert (E : c <> PreStart /\ Nat.eqb i c0 = true).
+      { unfold fe in A. destruct c; simpl in A; rewrite ?orb_false_r in A; try discriminate; split; auto; discriminate. }
+      destruct E as [Hc E]. unfold fe. destruct c; try congruence; simpl; rewrite E; reflexivity. }
   destruct (resume w i) as [w' go]. cbn [fst] in E.
   destruct go; [eapply ext_trans; [exact E|apply ext_segs]|exact E].
 Qed.
@@ -1823,9 +1854,12 @@ Lemma ext_abort w i : ext w (abort w i).
 Proof.
   unfold abort. destruct (get w i) as [a|]; [|apply ext_refl].
   destruct (a_pc a) as [| | |c r f [|]| |]; try apply ext_refl;
-    (eapply ext_trans; [|apply ext_cleanup]);
-    first [ext_ev
-          |apply ext_trans with (emit w (TAborted i)); [ext_ev|]; apply ext_emit; intros c0; destruct c; reflexivity].
+    try (eapply ext_trans; [|apply ext_cleanup]; ext_ev).
+  exists [TAborted i; TCancel i c]. split.
+  - unfold trace_of. rewrite trace_cleanup. simpl. rewrite <- app_assoc. reflexivity.
+  - intros c0 A. unfold has_ev in A. simpl in A. unfold ended, has_ev. simpl.
+    assert (E : Nat.eqb i c0 = true) by (destruct c; simpl in A; rewrite ?orb_false_r in A; try discriminate; auto).
+    rewrite E. reflexivity.
 Qed.
 
 Lemma ext_step w l : ext w (step w l).
@@ -1853,7 +1887,15 @@ Theorem failed_then_joined cfgs msgs ls c :
   failed_cb c (trace_of (run (init cfgs msgs) ls)) = true ->
   ended c (trace_of (run (init cfgs msgs) ls)) = true.
 Proof.
-  destruct (ext_run ls (init cfgs msgs)) as (d & E & G). rewrite E. simpl. apply G.
+  destruct (ext_run ls (init cfgs msgs)) as (d & E & G). rewrite E. simpl. intros F. apply G, failed_pf, F.
+Qed.
+
+(* the same for a callback (after pre_start) cancelled by a kill or an abort *)
+Theorem cancelled_then_ended cfgs msgs ls c :
+  cancelled_cb c (trace_of (run (init cfgs msgs) ls)) = true ->
+  ended c (trace_of (run (init cfgs msgs) ls)) = true.
+Proof.
+  destruct (ext_run ls (init cfgs msgs)) as (d & E & G). rewrite E. simpl. intros F. apply G, cancelled_pf, F.
 Qed.
 
 Theorem join_sound cfgs msgs ls n :
@@ -1864,6 +1906,19 @@ Proof.
   - rewrite (failed_then_joined cfgs msgs ls c F). apply orb_true_r.
   - rewrite andb_false_r. reflexivity.
 Qed.
+
+Theorem join_cancel_sound cfgs msgs ls n :
+  check_C04_join_cancel n (trace_of (run (init cfgs msgs) ls)) = true.
+Proof.
+  unfold check_C04_join_cancel. apply forallb_forall. intros c _.
+  destruct (cancelled_cb c _) eqn:F.
+  - rewrite (cancelled_then_ended cfgs msgs ls c F). apply orb_true_r.
+  - rewrite andb_false_r. reflexivity.
+Qed.
+
+Theorem join_cancel_sound_dops cfgs msgs rounds fuel order ops n :
+  check_C04_join_cancel n (trace_of (run_dops rounds fuel order (init cfgs msgs) ops)) = true.
+Proof. rewrite run_dops_labels. apply join_cancel_sound. Qed.
 
 Theorem join_sound_dops cfgs msgs rounds fuel order ops n :
   check_C04_join n (trace_of (run_dops rounds fuel order (init cfgs msgs) ops)) = true.
